@@ -65,6 +65,10 @@ class LeaderElection(Entity):
         self._network = network
         self._members: dict[str, Entity] = dict(members) if members else {}
         self._strategy = strategy or BullyStrategy()
+        if election_timeout <= 0:
+            raise ValueError(f"election_timeout must be > 0, got {election_timeout}")
+        if heartbeat_interval <= 0:
+            raise ValueError(f"heartbeat_interval must be > 0, got {heartbeat_interval}")
         self._election_timeout = election_timeout
         self._heartbeat_interval = heartbeat_interval
 
